@@ -116,6 +116,7 @@ class C03(Property):
     ID = "C03"
     SESSIONS = ["s0", "s1"]
     RUNS = {"quick": (4000, 3000), "thorough": (80000, 60000)}
+    MUST_REACH = {"probes": ["foreign_relion_3.0", "foreign_relion_3.1", "foreign_relion_4.0", "foreign_no_origin_columns", "foreign_df_nondefault_index", "interleaved_version_export", "memory_roundtrip", "stopgap_relion_pipeline", "reordered_before_original_export", "recovery_after_fault"], "faults": ["crash", "enospc", "eio_read", "short_read", "eintr", "open_fail"]}
 
     def config(self, rng, tier, faulty):
         cfg = {
